@@ -307,8 +307,64 @@ fn server_history(rec: &mut Rec, ctx: &Ctx, idx: u64, rng: &mut ChaCha20Rng) {
   let _ = layout::ELEM;
 }
 
+/// servers configured for 1..3 tags; punctures of unregistered tags come first
+fn small_server_history(rec: &mut Rec, _ctx: &Ctx, idx: u64, rng: &mut ChaCha20Rng) {
+  let ntags = rng.gen_range(1..=3usize);
+  let mut all: Vec<u8> = (0..=255u8).collect();
+  use rand::seq::SliceRandom;
+  all.shuffle(rng);
+  let tags: Vec<u8> = all[..ntags].to_vec();
+  let strangers: Vec<u8> = all[ntags..ntags + rng.gen_range(0..5)].to_vec();
+  let mut server = match Server::new(tags.clone()) {
+    Ok(s) => s,
+    Err(_) => return,
+  };
+  rec.evals += 1;
+  rec.ev("small_server_histories");
+  rec.case(&("small-server", ntags, strangers.len(), idx));
+  let (pt, _) = Client::blind(b"attacker input");
+  let mut hist: Vec<u8> = Vec::new();
+  for x in strangers.iter().chain(tags.iter()) {
+    if server.puncture(*x).is_err() {
+      continue;
+    }
+    hist.push(*x);
+    for y in hist.iter().filter(|y| tags.contains(y)) {
+      rec.ev("live_attacker_evaluations");
+      if server.eval(&pt, *y, false).is_ok() {
+        rec.violation("key-holder-evaluates-punctured-tag", format!("server for tags {:?}: after the puncture history {:?} the key holder still evaluates tag {}", tags, hist, y), json!({"tags": tags, "history": hist, "tag": y}));
+        return;
+      }
+    }
+    // exported state imported elsewhere
+    let bytes = bincode::serialize(&server.get_private_key()).unwrap_or_default();
+    if let (Ok(mut imp), Ok(st)) = (Server::new(vec![rng.gen::<u8>()]), bincode::deserialize::<ServerKeyState>(&bytes)) {
+      imp.set_private_key(st);
+      rec.ev("exports");
+      for y in hist.iter().filter(|y| tags.contains(y)) {
+        rec.ev("attacker_evaluations");
+        if imp.eval(&pt, *y, false).is_ok() {
+          rec.violation("attacker-evaluates-punctured-tag", format!("server for tags {:?}: the state exported after the history {:?} evaluates punctured tag {}", tags, hist, y), json!({"tags": tags, "history": hist, "tag": y}));
+          return;
+        }
+      }
+      // hook view of the importer: no retained node may cover a punctured input
+      for (bits, _) in imp.verif_pprf().verif_retained_nodes() {
+        for y in &hist {
+          let covers = bits.iter().enumerate().all(|(i, b)| ((*y >> i) & 1 == 1) == *b);
+          if covers && bits.len() <= 8 {
+            rec.violation("retained-ancestor-of-punctured:imported", format!("exported state keeps a node on the path to punctured input {}", y), json!({"tags": tags, "history": hist}));
+            return;
+          }
+        }
+      }
+    }
+  }
+}
+
 pub fn run(ctx: &Ctx) -> Rec {
   let mut rec = c10::explore(ctx, Mode::Material);
   rec.merge(par_run(ctx, "server-history", ctx.n(32, 400), |rec, i, rng| server_history(rec, ctx, i, rng)));
+  rec.merge(par_run(ctx, "small-server-history", ctx.n(300, 10_000), |rec, i, rng| small_server_history(rec, ctx, i, rng)));
   rec
 }
